@@ -279,6 +279,10 @@ impl ConnectingPerAddr {
         None
     }
 
+    fn is_full(&self) -> bool {
+        self.len == MAX_CONNECTING_PER_ADDR
+    }
+
     fn contains_conn_id(&self, conn_id: ConnectionId) -> bool {
         self.slots.iter().flatten().any(|c| c.conn_id == conn_id)
     }
@@ -456,6 +460,14 @@ impl<T: Transport, E: UtpEnvironment> Dispatcher<T, E> {
                 if self.streams_full() {
                     debug!(?addr, "too many connections, dropping connect request");
                     let _ = sender.tx.send(Err(Error::TooManyActiveConnections));
+                    return;
+                }
+                // Check for a free slot before the SYN goes out: a SYN without a pending connect
+                // behind it opens a connection on the peer that nobody here answers for, and
+                // its id (not consumed here) is handed to the next connect as well.
+                if self.connecting.get(&addr).is_some_and(|c| c.is_full()) {
+                    // This is super rare, can be warn.
+                    warn!("too many concurrent connectins to {addr}");
                     return;
                 }
                 let conn_id = self.get_next_free_conn_id(addr);
